@@ -95,7 +95,19 @@ RAW_RE = ["$[?@.a =~ /%s/%s]" % (p_, f_) for p_ in RE_PATS for f_ in RE_FLAGS] +
          ["$[?!(@.a =~ /%s/%s) && @.a =~ /%s/]" % (p_, f_, p_) for p_ in RE_PATS[:8] for f_ in ("i", "s")]
 
 
+# member names equal to (or containing) the identifier tokens, inside relative / filter-context / nested queries
+RAW_TOKEN_NAMES = ["$[?@['$ref'] == 'x']", "$.items[?@.tags[?@ == $.wanted]]", "$[?@.n > _['$limit']]", "$[?@['@x'] == _['_y']]", "$[?@['#k'] == 1 || @['~'] == 2]",
+                   "$[?@['^'] && @['_']]", "$[?@['$'] == $['$']]", "$[?_['$'] == @['$$']]", "$[?@[?@['$a'] > $['$a']]]", "$[?count(@['$ref']['$ref']) == 1]",
+                   "$[?@['a$b'] == _['a_b']]", "$..[?@['$ref'] == $['@ref']]", "$['$ref', '@ref', '_limit', '#k', '^', '~']", "$[?@.x == '$ref' || @.x == '@ref']"]
+TOKEN_DOCS = [[{"$ref": "x", "@ref": "y", "n": 5, "@x": 1, "#k": 1, "~": 2, "^": 1, "_": 1, "$": 3, "$$": 7, "$a": 2, "a$b": 4, "x": "$ref"},
+               {"@ref": "x", "n": 500, "@x": 2, "_": 0, "$": 4, "$$": 3, "$a": 9, "a$b": 5, "x": "@ref", "$ref": {"$ref": 1}}],
+              {"items": [{"tags": ["a", "w"]}, {"tags": ["b"]}], "wanted": "w", "$ref": "x", "@ref": "x", "$": 3, "$a": 5, "_limit": 1, "#k": 2, "^": 3, "~": 4}]
+TOKEN_CTX = {"$limit": 2, "_limit": 100, "_y": 1, "$": 7, "a_b": 4, "k": 1, "s": "a", "names": ["a"], "o": {}, "t": True, "n": None}
+
+
 def gen(rng, tier):
+    for text in RAW_TOKEN_NAMES:
+        yield {"text": text, "docs": TOKEN_DOCS, "ctx": TOKEN_CTX, "env": None}
     for text in RAW_RE:
         yield {"text": text, "docs": RE_DOCS, "ctx": Q.CTX, "env": None}
     for text in RAW + RAW_FLOATS:
